@@ -3,6 +3,7 @@ import WhVerif.Spec.C01
 import WhVerif.Model.C01Gray
 import WhVerif.Model.C01Witness
 import WhVerif.Model.C01Ckpt
+import WhVerif.Model.C01U32
 import WhVerif.Model.C01Input
 namespace WhVerif.Driver.C01
 open Lean WhVerif.Proto WhVerif.C01
@@ -173,5 +174,12 @@ def handle (op : String) (j : Json) : Option Json :=
           ("superreads", ofList (fun (o : Option (List (Nat × Nat))) => match o with
             | none => Json.null
             | some l => ofList (fun p => ofNatList [p.1, p.2]) l) (superReadsOf I path))])
+  else if op == "c01.cost32" then
+    -- the DP in the code's 32-bit arithmetic with UINT_MAX as infinity, and the no-overflow bound
+    match getInst j with
+    | .bad => some badInput
+    | .rejected w => some (rejected w)
+    | .ok I =>
+      some (Json.mkObj [("cost32", ofNat (dpCost32 I)), ("throws", Json.bool (throws32 I)), ("ub", ofNat (ubAll I))])
   else none
 end WhVerif.Driver.C01
